@@ -22,6 +22,7 @@ import (
 	ihelper "github.com/ipfs/boxo/ipld/unixfs/importer/helpers"
 	"github.com/ipfs/boxo/ipld/unixfs/importer/trickle"
 	uio "github.com/ipfs/boxo/ipld/unixfs/io"
+	blocks "github.com/ipfs/go-block-format"
 	cid "github.com/ipfs/go-cid"
 	ds "github.com/ipfs/go-datastore"
 	dssync "github.com/ipfs/go-datastore/sync"
@@ -42,6 +43,38 @@ func NewEnv() *Env {
 	bs := bstore.NewBlockstore(dssync.MutexWrap(ds.NewMapDatastore()))
 	bsrv := blockservice.New(bs, offline.Exchange(bs))
 	return &Env{BS: bs, BSrv: bsrv, DS: merkledag.NewDAGService(bsrv)}
+}
+
+// ctxStore makes the in-memory blockstore honour context cancellation the way
+// a real store or a remote exchange does: a read with a context that is already
+// done fails with the context's error.
+type ctxStore struct{ bstore.Blockstore }
+
+func (s ctxStore) Get(ctx context.Context, c cid.Cid) (blocks.Block, error) {
+	if err := ctx.Err(); err != nil {
+		return nil, err
+	}
+	return s.Blockstore.Get(ctx, c)
+}
+
+func (s ctxStore) GetSize(ctx context.Context, c cid.Cid) (int, error) {
+	if err := ctx.Err(); err != nil {
+		return 0, err
+	}
+	return s.Blockstore.GetSize(ctx, c)
+}
+
+func (s ctxStore) Has(ctx context.Context, c cid.Cid) (bool, error) {
+	if err := ctx.Err(); err != nil {
+		return false, err
+	}
+	return s.Blockstore.Has(ctx, c)
+}
+
+// NewEnvCtx is NewEnv over a blockstore that refuses reads whose context is
+// already cancelled.
+func NewEnvCtx() *Env {
+	return NewEnvOver(ctxStore{bstore.NewBlockstore(dssync.MutexWrap(ds.NewMapDatastore()))})
 }
 
 // NewEnvOver builds the services over an existing blockstore (used to replay a
@@ -197,6 +230,8 @@ type TreeOpts struct {
 	MaxFileSize int
 	Symlinks    bool
 	RootHAMT    int // 0 random, 1 force HAMT, 2 force basic
+	RootMin     int   // minimum number of root entries drawn (before name collisions)
+	RootFanout  []int // HAMT fan-outs to choose from for the root (nil: all)
 	// EmptyHAMT allows HAMT directories without entries. boxo writes such a
 	// shard without the UnixFS Data (bitfield) field and go-unixfsnode refuses
 	// to load it, so generators keep them to a dedicated stratum.
@@ -267,6 +302,9 @@ func genDir(r *vlib.Rand, env *Env, o TreeOpts, depth int, name string) (*Entry,
 	default:
 		n = r.Range(1, maxN)
 	}
+	if depth == 0 && n < o.RootMin {
+		n = r.Range(o.RootMin, max(o.RootMin, maxN))
+	}
 	if depth > 0 && n > 12 && !hamt {
 		n = 12
 	}
@@ -320,6 +358,9 @@ func genDir(r *vlib.Rand, env *Env, o TreeOpts, depth int, name string) (*Entry,
 	if hamt {
 		e.Kind = KHAMT
 		e.Width = hamtWidths[r.Intn(len(hamtWidths))]
+		if depth == 0 && len(o.RootFanout) > 0 {
+			e.Width = o.RootFanout[r.Intn(len(o.RootFanout))]
+		}
 		dir, err = uio.NewHAMTDirectory(env.DS, 0, append(opts, uio.WithMaxHAMTFanout(e.Width))...)
 	} else {
 		e.Kind = KDir
